@@ -28,6 +28,7 @@ type c03Part struct {
 type c03Op struct {
 	K    string   `json:"k"` // acq | rel | set | add | rm
 	Key  string   `json:"key,omitempty"`
+	Mode int      `json:"mode,omitempty"` // acq: which context keys carry Key: 0 both strategies' keys, 1 only this strategy's, 2 only the other strategy's, 3 none
 	Idx  int      `json:"idx,omitempty"`
 	N    int      `json:"n,omitempty"`
 	Part *c03Part `json:"part,omitempty"`
@@ -96,7 +97,7 @@ func genC03(t *rapid.T) c03Case {
 	op := rapid.Custom(func(t *rapid.T) c03Op {
 		switch k := rapid.IntRange(0, 19).Draw(t, "k"); {
 		case k < 10:
-			return c03Op{K: "acq", Key: rapid.SampledFrom(c03Keys).Draw(t, "key")}
+			return c03Op{K: "acq", Key: rapid.SampledFrom(c03Keys).Draw(t, "key"), Mode: rapid.SampledFrom([]int{0, 0, 0, 1, 2, 3}).Draw(t, "mode")}
 		case k < 15:
 			return c03Op{K: "rel", Idx: rapid.IntRange(0, 1000).Draw(t, "idx")}
 		case k < 17:
@@ -130,6 +131,27 @@ func c03Share(total int, frac float64) int {
 func c03Ctx(key string) context.Context {
 	ctx := context.WithValue(context.Background(), matchers.LookupPartitionContextKey, key)
 	return context.WithValue(ctx, matchers.StringPredicateContextKey, key)
+}
+
+// c03CtxMode: a request context that carries the key under this strategy's context key, under the other
+// strategy's, under both or under none. Only the strategy's own key routes; without it the request has no key
+// (lookup: the empty string; predicate: no partition matches).
+func c03CtxMode(kind, key string, mode int) (ctx context.Context, routed string, keyed bool) {
+	own, other := any(matchers.LookupPartitionContextKey), any(matchers.StringPredicateContextKey)
+	if kind != "lookup" {
+		own, other = other, own
+	}
+	ctx = context.Background()
+	if mode == 0 || mode == 1 {
+		ctx = context.WithValue(ctx, own, key)
+	}
+	if mode == 0 || mode == 2 {
+		ctx = context.WithValue(ctx, other, key)
+	}
+	if mode == 0 || mode == 1 {
+		return ctx, key, true
+	}
+	return ctx, "", false
 }
 
 func (b *c03Bin) accepts(key string) bool {
@@ -270,13 +292,17 @@ func runC03(_ *testing.T, c c03Case) (out kit.Outcome) {
 	for i, op := range c.Ops {
 		switch op.K {
 		case "acq":
-			bin := find(op.Key)
+			actx, routed, keyed := c03CtxMode(c.Kind, op.Key, op.Mode)
+			bin := find(routed)
+			if !keyed && c.Kind != "lookup" {
+				bin = nil // a request without the predicate key matches no partition
+			}
 			var tk core.StrategyToken
 			var ok bool
 			if c.Kind == "lookup" {
-				tk, ok = ls.TryAcquire(c03Ctx(op.Key))
+				tk, ok = ls.TryAcquire(actx)
 			} else {
-				tk, ok = ps.TryAcquire(c03Ctx(op.Key))
+				tk, ok = ps.TryAcquire(actx)
 			}
 			if tk == nil || tk.IsAcquired() != ok {
 				return kit.Viol(c.Kind+":token", "op %d acquire(%q): ok=%v but token=%v", i, op.Key, ok, tk)
